@@ -386,7 +386,11 @@ def ips_write(arg: dict) -> dict:
             err = f"{type(e).__name__}: {e}"
             break
     if not refused_at:
-        w.end()
+        try:
+            w.end()
+        except BaseException as e:  # noqa: BLE001
+            refused_at = -1          # refused while closing the file
+            err = f"{type(e).__name__}: {e}"
     return {"refused_at": refused_at, "err": err, "file": list(f.getvalue()) if not refused_at else []}
 
 
@@ -425,7 +429,14 @@ def include_ips_case(arg: dict) -> dict:
     base = assemble({"src": _ips_program(arg["placement"], ""), "files": files})
     with_ = assemble({"src": _ips_program(arg["placement"], directive), "files": files})
     pick = lambda o: {"ok": o["ok"], "calls": o["calls"], "labels": o["labels"], "err": o["err"]}  # noqa: E731
-    return {"base": pick(base), "with": pick(with_)}
+    out = {"base": pick(base), "with": pick(with_), "fe": []}
+    if arg.get("file_entries"):
+        # the same source through the file entry points: did they report success?
+        for entry, fmt in (("assemble", "sfc"), ("patch", "ips")):
+            o = run_entry({"entry": entry, "src": _ips_program(arg["placement"], directive), "files": files, "format": fmt,
+                           "mapping": "low", "header": False})
+            out["fe"].append(bool(o.get("status") == 0 and not o.get("raised")))
+    return out
 
 
 # ------------------------------------------------------------------------------------------
@@ -678,7 +689,8 @@ def run_entry(arg: dict) -> dict:
             cmd.append("--copier-header")
         cmd.append(asm)   # positional before -D: nargs='+' would swallow it otherwise
         if defines:
-            cmd += ["-D"] + [f"{k}={v}" for k, v in defines.items()]
+            texts = arg.get("define_texts") or {}
+            cmd += ["-D"] + [f"{k}={texts.get(k, v)}" for k, v in defines.items()]
         env = dict(os.environ)
         env["PYTHONPATH"] = REPO
         env.pop("A816_VERIF", None)
